@@ -281,8 +281,11 @@ def t_tilt_about_centre(ctx, rng, desc):
     # (t/R)^2 in relative accuracy (nearly afocal lenses with an F-number aperture are launched from kilometres away)
     tmax = max(float(np.nanmax(np.abs(A['z'][j] - A['z'][j - 1]))) for j in range(1, k + 1))
     cond = 50 * 2.2e-16 * tmax * tmax / abs(R)
+    pb = 1e-6 if any(su.get('conic') == -1.0 for su in desc['surfaces']) else 0.0
+    # (paraboloids elsewhere in the lens: the conic quadratic cancels for nearly axial rays, finding F23 - the same
+    # allowance as in the other transformations)
     compare_rel(ctx, 'tilting a sphere about its own centre of curvature changes nothing', case, A, B,
-                lambda f, v: v, rtol=1e-8, atol=1e-8 + cond)
+                lambda f, v: v, rtol=max(1e-8, pb), atol=max(1e-8, pb) + cond)
 
 
 def t_scale(ctx, rng, desc):
